@@ -121,6 +121,34 @@ func (m *Mon) stepC02(sc *StepCtx, si stepInfo) {
 				m.fail(sc, "C02", "R1-consumer-delta", cmpClass(got, want), "end-of-block %d: consumer %.8s balance moved by %s, expected refunds %v - new fees %v = %s", be.H, c, got, be.Refunds[c], fees[c], want)
 			}
 		}
+		// C06 face of the same equation: a batch that creates no requests (skipped, paused,
+		// postponed, whatever) costs nothing, and a batch that does costs what its requests record
+		for a := range post.Bal {
+			n := sc.run.w.tracked[a]
+			if n == "escrow" || n == "deposits" || n == "feecollector" {
+				continue
+			}
+			want := new(big.Int)
+			if v := be.Refunds[a]; v != nil {
+				want.Add(want, v)
+			}
+			if v := fees[a]; v != nil {
+				want.Sub(want, v)
+			}
+			got := delta(pre, post, a)
+			m.hit("C06", "charge-matches-issued", fmt.Sprintf("issued%v", fees[a] != nil && fees[a].Sign() > 0))
+			m.hit("C07", "charged-equals-recorded-fees", fmt.Sprintf("issued%v", fees[a] != nil && fees[a].Sign() > 0))
+			if got.Cmp(want) < 0 {
+				kind := "more-than-issued"
+				if fees[a] == nil || fees[a].Sign() == 0 {
+					kind = "no-requests"
+				}
+				// C07 ("the fee charged follows the published pricing"): what is taken from the consumer
+				// at batch start is the sum of the fees its requests record, nothing on top
+				m.fail(sc, "C07", "charged-equals-recorded-fees", kind, "end-of-block %d: account %.8s was charged %s more than the fees recorded on the requests created for it", be.H, a, new(big.Int).Sub(want, got))
+				m.fail(sc, "C06", "charge-matches-issued", kind, "end-of-block %d: account %.8s was charged %s more than the fees of the requests created for it (balance moved by %s, refunds %v, fees of new requests %v)", be.H, a, new(big.Int).Sub(want, got), got, be.Refunds[a], fees[a])
+			}
+		}
 		wantEsc := new(big.Int).Sub(total, totalRefund)
 		if !eqInt(dEsc, wantEsc) {
 			m.fail(sc, "C02", "R1-escrow-delta", cmpClass(dEsc, wantEsc), "end-of-block %d: escrow moved by %s, expected new fees %s - refunds %s", be.H, dEsc, total, totalRefund)
